@@ -426,7 +426,11 @@ pub fn run(rep: &mut Report) {
     let mut cases: Vec<Box<dyn Case>> = Vec::new();
     // the second (nodebug) pass repeats the exploration on the small lattice: what differs between the two builds is the
     // prover's and verifier's guards, not the configuration
-    let lat = if crate::engine::profile_pass().is_some() && !tier.thorough() { lattice_small() } else { lattice(tier.thorough()) };
+    let lat = match (crate::engine::profile_pass().is_some(), tier.thorough()) {
+        (true, false) => lattice_small(),
+        (true, true) => lattice_quick(),
+        (false, t) => lattice(t),
+    };
     for cfg in lat {
         for j in positions(cfg.m, tier.thorough()) {
             for variant in ["mid", "max", "zero", "twin-commitments"] {
